@@ -251,7 +251,7 @@ PNodeTest(toks, i, ax) ==
 PPrimary(toks, i) ==
     LET t == At(toks, i) IN
     IF t.k = "lit" THEN Ok([e |-> Lit(LitValue(t.s)), paren |-> FALSE], i + 1)
-    ELSE IF t.k = "num" THEN Ok([e |-> NumLit(NumValue(t.s)), paren |-> FALSE], i + 1)
+    ELSE IF t.k = "num" THEN Ok([e |-> [t |-> "num", v |-> NumValue(t.s), lex |-> t.s], paren |-> FALSE], i + 1)
     ELSE IF IsSym(t, "$")
          THEN IF At(toks, i + 1).k = "name" THEN Ok([e |-> [t |-> "var", n |-> At(toks, i + 1).s], paren |-> FALSE], i + 2) ELSE Fail
     ELSE IF IsSym(t, "(")
@@ -330,6 +330,18 @@ WellFormedText(s) == WellFormed(Lex(s))
 (***************************************************************************)
 (* The engine's parse-tree shape: a string in the format of VerifParse.    *)
 (***************************************************************************)
+\* a Number lexeme in the shortest plain decimal form (what Go prints for the parsed value):
+\* no leading zeros, no trailing fraction zeros, "0." in front of a bare fraction
+RECURSIVE StripLead0(_), StripTrail0(_)
+StripLead0(s) == IF Len(s) > 1 /\ Ch(s, 1) = "0" THEN StripLead0(SubSeq(s, 2, Len(s))) ELSE s
+StripTrail0(s) == IF Len(s) > 0 /\ Ch(s, Len(s)) = "0" THEN StripTrail0(SubSeq(s, 1, Len(s) - 1)) ELSE s
+NormDec(s) ==
+    LET dot == FirstIdx(s, ".", 1)
+        ip  == IF dot = 0 THEN s ELSE SubSeq(s, 1, dot - 1)
+        fp  == IF dot = 0 THEN "" ELSE StripTrail0(SubSeq(s, dot + 1, Len(s)))
+        ip2 == IF ip = "" THEN "0" ELSE StripLead0(ip)
+    IN IF fp = "" THEN ip2 ELSE ip2 \o "." \o fp
+
 RECURSIVE EForm(_), EFSteps(_, _), EFPreds(_, _), EFArgs(_), EFAlts(_, _), NegParity(_), NegBase(_)
 
 TestForm(nt) ==
@@ -370,7 +382,7 @@ EForm(e) ==
       [] e.t = "bin"    -> "(" \o EForm(e.l) \o " " \o e.op \o " " \o EForm(e.r) \o ")"
       [] e.t = "neg"    -> IF NegParity(e) = 1 THEN "(" \o EForm(NegBase(e)) \o " * num(-1))" ELSE EForm(NegBase(e))
       [] e.t = "lit"    -> "str(" \o e.s \o ")"
-      [] e.t = "num"    -> "num(" \o NumToStr(e.v) \o ")"
+      [] e.t = "num"    -> "num(" \o (IF "lex" \in DOMAIN e THEN NormDec(e.lex) ELSE NumToStr(e.v)) \o ")"
       [] e.t = "var"    -> "var(" \o e.n \o ")"
       [] e.t = "call"   -> "fn(" \o e.f \o EFArgs(e.args) \o ")"
 
